@@ -90,8 +90,7 @@ impl HX for U {
         cfg.service(info).service(init).service(fetch_quotes).service(tick).service(insert_order).service(delete_order).service(now);
     }
     fn insert_body(t: &[&str]) -> Value {
-        let px = if t[3] == "-" { None } else { Some(pf(t[3])) };
-        json!({ "order": uist::mk_order(pu(t[0]), t[1], pf(t[2]), px) })
+        json!({ "order": uist::mk_order_toks(t) })
     }
     fn delete_body(t: &[&str]) -> Value {
         json!({ "order_id": pu(t[0]) })
@@ -125,8 +124,7 @@ async fn ucall<C: rotala::http::uist::uistv1_client::UistClient>(c: &mut C, op: 
     match op {
         "INIT" => tv(c.init(t[1].to_string()).await),
         "INS" => {
-            let px = if t[5] == "-" { None } else { Some(pf(t[5])) };
-            tv(c.insert_order(uist::mk_order(pu(t[2]), t[3], pf(t[4]), px), bt).await)
+            tv(c.insert_order(uist::mk_order_toks(&t[2..]), bt).await)
         }
         "DEL" => tv(c.delete_order(pu(t[2]), bt).await),
         "TICK" => tv(c.tick(bt).await),
